@@ -674,7 +674,7 @@ func runC16(c *Ctx) {
 	})
 
 	c16entryPoints(c, sources[:min(len(sources), c.N(24, 146))])
-	c.Require("accepted", "requests_with_undefined_members", "option_passing_ways_compared", "replications", "cli:correct-accepted", "bulk:correct-accepted")
+	c.Require("accepted", "requests_with_undefined_members", "option_passing_ways_compared", "replications", "cli:correct-accepted", "cli:correct-type-by-flag", "bulk:correct-accepted")
 }
 
 func checkReplica(src, res *jmut.Node, d0, d1 string, recalc bool) (field, detail string) {
@@ -809,6 +809,32 @@ func c16entryPoints(c *Ctx, sources []c16source) {
 					c.R.Fail("accepted-disallowed:"+s.it.Regime+":type", "`gobl correct` accepted a credit note the tables do not allow", wit)
 				}
 				c.R.Count("cli:correct-accepted", 1)
+			}
+		}
+		// the same request said with the type flag and the rest as data, and the debit
+		// pair: each way of saying it must be accepted or refused like the other
+		{
+			accepted := func(args ...string) (bool, []byte) {
+				cm := exec.Command(gbin, append(append([]string{"correct"}, args...), file)...)
+				var o2, e2 bytes.Buffer
+				cm.Stdout, cm.Stderr = &o2, &e2
+				return runWithTimeout(cm, 60*time.Second) == nil, o2.Bytes()
+			}
+			okFlag, outFlag := accepted("--credit", "-d", `{"reason":"cli"}`)
+			c.R.Count("cli:correct-type-by-flag", 1)
+			if okFlag != (err == nil) {
+				c.R.Fail("option-passing:cli-credit-flag", fmt.Sprintf("`gobl correct --credit -d {reason}` on %s (%s) accepted=%v, but -d {type:credit-note,reason} accepted=%v", s.it.Rel, s.variant, okFlag, err == nil), wit)
+			} else if okFlag {
+				if rn, perr := jmut.Parse(outFlag); perr == nil {
+					if f, det := checkCorrection(sn, rn, o, cd, s.stamps); f != "" && !(f == "preceding.stamps" && len(s.stamps) == 0) {
+						c.R.Fail("result:cli-correct-flag:"+f, fmt.Sprintf("`gobl correct --credit -d {reason}` on %s (%s): %s", s.it.Rel, s.variant, det), wit)
+					}
+				}
+			}
+			okD1, _ := accepted("-d", `{"type":"debit-note","reason":"cli"}`)
+			okD2, _ := accepted("--debit", "-d", `{"reason":"cli"}`)
+			if okD1 != okD2 {
+				c.R.Fail("option-passing:cli-debit-flag", fmt.Sprintf("`gobl correct --debit -d {reason}` on %s (%s) accepted=%v, but -d {type:debit-note,reason} accepted=%v", s.it.Rel, s.variant, okD2, okD1), wit)
 			}
 		}
 		if fb, _ := os.ReadFile(file); !bytes.Equal(fb, s.env) {
